@@ -58,7 +58,9 @@ func defaultCfg(r *rand.Rand) GenCfg {
 }
 
 func genValue(r *rand.Rand, big bool) Bytes {
-	switch r.Intn(6) {
+	switch r.Intn(8) {
+	case 6, 7:
+		return B([]byte("same-long-value")) // repeated instances often carry identical adjacent values
 	case 0:
 		return Bytes{}
 	case 1:
